@@ -441,6 +441,30 @@ func (r *Run) callWithSpec(fr *Frame, st *State, reach Term, sp *FuncSpec, sig *
 			env.vars[n] = args[i]
 		}
 	}
+	if sp.Implements != "" {
+		// the function promises the interface method's contract too: same clauses, interface parameter names
+		isp := r.specs.Funcs["iface:"+sp.Implements]
+		if isp == nil {
+			r.fatal = "no interface contract " + sp.Implements
+			return r.freshTypedResults(sig, st), reach
+		}
+		inames := append([]string{"self"}, r.ifaceParamNames(isp, sp.Implements)...)
+		for i, n := range inames {
+			if i < len(args) {
+				if _, clash := env.vars[n]; clash && !sameVal(env.vars[n], args[i]) {
+					r.fatal = fmt.Sprintf("%s implements %s: parameter name %q clashes", sp.Key, sp.Implements, n)
+					return r.freshTypedResults(sig, st), reach
+				}
+				env.vars[n] = args[i]
+			}
+		}
+		m := *sp
+		m.Implements = ""
+		m.Requires = append(append([]Clause(nil), isp.Requires...), sp.Requires...)
+		m.Ensures = append(append([]Clause(nil), isp.Ensures...), sp.Ensures...)
+		m.Assigns = append(append([]Expr(nil), isp.Assigns...), sp.Assigns...)
+		sp = &m
+	}
 	ord := 0
 	if instr != nil {
 		ord = callOrdinal(instr.Parent(), instr, short, func(c *ssa.CallCommon) string { return r.calleeShortName(nil, c) })
@@ -458,17 +482,32 @@ func (r *Run) callWithSpec(fr *Frame, st *State, reach Term, sp *FuncSpec, sig *
 		}
 		r.oblige(fr, "pre", "", fmt.Sprintf("%spre@%s#%d.%s", r.inlinePrefix(fr), short, ord, clauseName(c, i)), reach, g, r.callProps(fr, c), pos, c.Text)
 	}
-	// 2. frame
+	// 2. frame: items that do not mention results designate pre-state objects
 	pre := st.clone()
-	if sp.Havoc {
-		r.havocAll(st, reach)
+	rn := resultNames(sig, sp)
+	rnames := map[string]bool{"result": true}
+	for i, n := range rn {
+		rnames[n] = true
+		rnames[fmt.Sprintf("result%d", i)] = true
 	}
+	var preActs []func(*State)
+	var postItems []Expr
 	for _, a := range sp.Assigns {
-		r.havocTarget(env, st, a, sp)
+		if mentionsNames(a, rnames) {
+			postItems = append(postItems, a)
+			continue
+		}
+		preActs = append(preActs, r.resolveTarget(env, a, sp))
 		if env.err != nil {
 			r.fatal = fmt.Sprintf("%s assigns (at call in %s): %v", sp.Key, funcKey(fr.fn), env.err)
 			return r.freshTypedResults(sig, st), reach
 		}
+	}
+	if sp.Havoc {
+		r.havocAll(st, reach)
+	}
+	for _, act := range preActs {
+		act(st)
 	}
 	// 3. results
 	res := r.freshTypedResults(sig, st)
@@ -476,7 +515,6 @@ func (r *Run) callWithSpec(fr *Frame, st *State, reach Term, sp *FuncSpec, sig *
 	for k, v := range env.vars {
 		penv.vars[k] = v
 	}
-	rn := resultNames(sig, sp)
 	switch len(rn) {
 	case 0:
 	case 1:
@@ -487,6 +525,15 @@ func (r *Run) callWithSpec(fr *Frame, st *State, reach Term, sp *FuncSpec, sig *
 			penv.vars[n] = res.Tup[i]
 			penv.vars[fmt.Sprintf("result%d", i)] = res.Tup[i]
 		}
+	}
+	// items that mention results designate post-state objects; applied in order
+	for _, a := range postItems {
+		act := r.resolveTarget(penv, a, sp)
+		if penv.err != nil {
+			r.fatal = fmt.Sprintf("%s assigns (at call in %s): %v", sp.Key, funcKey(fr.fn), penv.err)
+			return res, reach
+		}
+		act(st)
 	}
 	// 4. postcondition
 	for i, c := range sp.Ensures {
@@ -588,26 +635,27 @@ func (r *Run) assignComps(sp *FuncSpec, a Expr) ([]string, bool) {
 	return nil, true
 }
 
-// havocTarget forgets one assigns item in st (evaluated in the pre-state env).
-func (r *Run) havocTarget(env *Env, st *State, a Expr, sp *FuncSpec) {
+// resolveTarget evaluates one assigns item in env (its state decides which object is meant) and returns
+// the action that forgets it in a state.
+func (r *Run) resolveTarget(env *Env, a Expr, sp *FuncSpec) func(st *State) {
+	nop := func(st *State) {}
 	switch x := a.(type) {
 	case *EIdent:
 		if x.Name == "everything" {
-			r.havocAll(st, tTrue)
-			return
+			return func(st *State) { r.havocAll(st, tTrue) }
 		}
 		if x.Name == "allocates" {
-			old := r.heapGet(st, "$top")
-			nt := r.ctx.Fresh("top", SInt)
-			r.ctx.Assert(Ge(nt, old))
-			r.heapSet(st, "$top", nt)
-			return
+			return func(st *State) {
+				old := r.heapGet(st, "$top")
+				nt := r.ctx.Fresh("top", SInt)
+				r.ctx.Assert(Ge(nt, old))
+				r.heapSet(st, "$top", nt)
+			}
 		}
 		if srt, ok := r.specs.Ghosts[x.Name]; ok {
 			comp := "ghost." + x.Name
 			r.regComp(comp, srt)
-			r.heapSet(st, comp, r.ctx.Fresh("hv."+comp, srt))
-			return
+			return func(st *State) { r.heapSet(st, comp, r.ctx.Fresh("hv."+comp, srt)) }
 		}
 	case *ECall:
 		if id, ok := x.Fun.(*EIdent); ok {
@@ -617,7 +665,7 @@ func (r *Run) havocTarget(env *Env, st *State, a Expr, sp *FuncSpec) {
 				t := env.term(v)
 				if t.Sort != SSlice {
 					env.fail("elems of non-slice")
-					return
+					return nop
 				}
 				var et types.Type = types.Typ[types.Uint8]
 				if v.Typ != nil {
@@ -626,25 +674,27 @@ func (r *Run) havocTarget(env *Env, st *State, a Expr, sp *FuncSpec) {
 					}
 				}
 				comp, srt := r.elemComp(et)
-				m := r.heapGet(st, comp)
-				// only positions [off, off+len) change
-				row := r.ctx.Fresh("hv.row", arraySort(SInt, srt))
-				oldRow := Select(m, slBase(t))
-				r.ctx.Assert(Term{fmt.Sprintf("(forall ((j Int)) (! (=> (or (< j %s) (>= j %s)) (= (select %s j) (select %s j))) :pattern ((select %s j))))",
-					slOff(t).S, Add(slOff(t), slLen(t)).S, row.S, oldRow.S, row.S), SBool})
-				if isInteger(et) {
-					lo, hi := intRange(et)
-					r.ctx.Assert(Term{fmt.Sprintf("(forall ((j Int)) (! (and (<= %s (select %s j)) (<= (select %s j) %s)) :pattern ((select %s j))))",
-						mkBig(lo).S, row.S, row.S, mkBig(hi).S, row.S), SBool})
+				return func(st *State) {
+					m := r.heapGet(st, comp)
+					// only positions [off, off+len) change
+					row := r.ctx.Fresh("hv.row", arraySort(SInt, srt))
+					oldRow := Select(m, slBase(t))
+					r.ctx.Assert(Term{fmt.Sprintf("(forall ((j Int)) (! (=> (or (< j %s) (>= j %s)) (= (select %s j) (select %s j))) :pattern ((select %s j))))",
+						slOff(t).S, Add(slOff(t), slLen(t)).S, row.S, oldRow.S, row.S), SBool})
+					if isInteger(et) {
+						lo, hi := intRange(et)
+						r.ctx.Assert(Term{fmt.Sprintf("(forall ((j Int)) (! (and (<= %s (select %s j)) (<= (select %s j) %s)) :pattern ((select %s j))))",
+							mkBig(lo).S, row.S, row.S, mkBig(hi).S, row.S), SBool})
+					}
+					r.heapSet(st, comp, r.ctx.Define("h."+comp, Store(m, slBase(t), row)))
 				}
-				r.heapSet(st, comp, r.ctx.Define("h."+comp, Store(m, slBase(t), row)))
-				return
 			case "comp":
 				if s, ok := x.Args[0].(*EStr); ok {
-					if srt, ok := r.compSorts[s.V]; ok {
-						r.heapSet(st, s.V, r.ctx.Fresh("hv."+s.V, srt))
+					return func(st *State) {
+						if srt, ok := r.compSorts[s.V]; ok {
+							r.heapSet(st, s.V, r.ctx.Fresh("hv."+s.V, srt))
+						}
 					}
-					return
 				}
 			}
 		}
@@ -667,8 +717,7 @@ func (r *Run) havocTarget(env *Env, st *State, a Expr, sp *FuncSpec) {
 								r.regComp(comp, arraySort(SInt, gs))
 							}
 							if srt, ok := r.compSorts[comp]; ok {
-								r.heapSet(st, comp, r.ctx.Fresh("hv."+comp, srt))
-								return
+								return func(st *State) { r.heapSet(st, comp, r.ctx.Fresh("hv."+comp, srt)) }
 							}
 						}
 					}
@@ -676,23 +725,21 @@ func (r *Run) havocTarget(env *Env, st *State, a Expr, sp *FuncSpec) {
 			}
 		}
 		v := env.eval(x.X)
-		l := r.fieldByName(st, v, x.Sel)
+		l := r.fieldByName(env.state(), v, x.Sel)
 		if l == nil {
 			env.fail("assigns: no field %s", exprString(a))
-			return
+			return nop
 		}
-		r.havocLoc(st, l)
-		return
+		return func(st *State) { r.havocLoc(st, l) }
 	case *EUnary:
 		if x.Op == "*" {
 			v := env.eval(x.X)
 			l := r.derefLoc(v)
 			if l == nil {
 				env.fail("assigns: cannot dereference %s", exprString(x.X))
-				return
+				return nop
 			}
-			r.havocLoc(st, l)
-			return
+			return func(st *State) { r.havocLoc(st, l) }
 		}
 	case *EIndex:
 		if id, ok := x.X.(*EIdent); ok {
@@ -700,8 +747,9 @@ func (r *Run) havocTarget(env *Env, st *State, a Expr, sp *FuncSpec) {
 				comp := "ghost." + id.Name
 				r.regComp(comp, srt)
 				i := env.term(env.eval(x.I))
-				r.heapSet(st, comp, Store(r.heapGet(st, comp), i, r.ctx.Fresh("hv."+comp, arrayValSort(srt))))
-				return
+				return func(st *State) {
+					r.heapSet(st, comp, Store(r.heapGet(st, comp), i, r.ctx.Fresh("hv."+comp, arrayValSort(srt))))
+				}
 			}
 		}
 		v := env.eval(x.X)
@@ -715,11 +763,22 @@ func (r *Run) havocTarget(env *Env, st *State, a Expr, sp *FuncSpec) {
 			}
 			comp, srt := r.elemComp(et)
 			i := env.term(env.eval(x.I))
-			r.havocLoc(st, &Loc{Kind: LElem, Comp: comp, Sort: srt, Base: slBase(t), Off: Add(slOff(t), i), Typ: et})
-			return
+			l := &Loc{Kind: LElem, Comp: comp, Sort: srt, Base: slBase(t), Off: Add(slOff(t), i), Typ: et}
+			return func(st *State) { r.havocLoc(st, l) }
 		}
 	}
 	env.fail("unsupported assigns item %s", exprString(a))
+	return nop
+}
+
+func mentionsNames(e Expr, names map[string]bool) bool {
+	found := false
+	walkExpr(e, func(x Expr) {
+		if id, ok := x.(*EIdent); ok && names[id.Name] {
+			found = true
+		}
+	})
+	return found
 }
 
 func (r *Run) havocLoc(st *State, l *Loc) {
@@ -891,7 +950,7 @@ func (r *Run) claims(kind string) bool {
 }
 
 // ghostAt runs ghost blocks anchored at the given point of the function that contains instr.
-func (r *Run) ghostAt(fr *Frame, st *State, reach Term, anchor string, instr ssa.Instruction) {
+func (r *Run) ghostAt(fr *Frame, st *State, reach Term, anchor string, instr ssa.Instruction, extra ...map[string]Val) {
 	sp := r.specFor(fr.fn)
 	if sp == nil {
 		return
@@ -903,6 +962,11 @@ func (r *Run) ghostAt(fr *Frame, st *State, reach Term, anchor string, instr ssa
 		env := r.baseEnv(fr, st)
 		if instr != nil {
 			env.pos = instr.Pos()
+		}
+		for _, m := range extra {
+			for k, v := range m {
+				env.vars[k] = v
+			}
 		}
 		// simultaneous assignment: evaluate all right-hand sides first
 		var vals []Val
